@@ -439,6 +439,11 @@ func (w *memWS) ReadMessage() (int, []byte, error) {
 				w.mu.Unlock()
 				if h != nil {
 					_ = h(string(f.data))
+				} else {
+					// what a websocket library does by default: answer with a pong
+					t := time.NewTimer(time.Second)
+					_ = w.write(wsFrame{10, f.data}, t.C)
+					t.Stop()
 				}
 				continue
 			case 10: // pong
@@ -484,7 +489,7 @@ func newWebsocketLink(e *Engine, s *SimSess, ser string) *websocketLink {
 	}
 	l := &websocketLink{ws: cws, ser: serializerFor(ser), payload: payload, in: newInbuf()}
 	go func() {
-		peer := transport.NewWebsocketPeer(sws, e.serverSerializer(ser), payload, e.Log, 0, qsize)
+		peer := transport.NewWebsocketPeer(sws, e.serverSerializer(ser), payload, e.Log, time.Duration(s.Cfg.KeepAlive), qsize)
 		if s.Cfg.Cookie != "" || s.Cfg.NextCookie != "" {
 			// what WebsocketServer passes along with EnableTrackingCookie
 			_ = e.R.AttachClient(peer, wamp.Dict{"type": "websocket", "auth": wamp.Dict{"cookie": s.Cfg.Cookie, "nextcookie": s.Cfg.NextCookie}})
@@ -661,7 +666,7 @@ func newRawWSLink(e *Engine, s *SimSess, tr string) *rawWSLink {
 		qsize = 64
 	}
 	go func() {
-		peer := transport.NewWebsocketPeer(sws, e.serverSerializer(ser), payload, e.Log, 0, qsize)
+		peer := transport.NewWebsocketPeer(sws, e.serverSerializer(ser), payload, e.Log, time.Duration(s.Cfg.KeepAlive), qsize)
 		_ = e.R.Attach(peer)
 	}()
 	go func() {
